@@ -12,7 +12,7 @@ from simkit.world import digest
 ID = "C21"
 LEVEL = "exploration"
 ENGINE = "simkit/proxy-world"
-QUICK_RUNS = 8000
+QUICK_RUNS = 30000
 QUICK_BUDGET_S = 150
 THOROUGH_BUDGET_S = 900
 CHUNK = 50
